@@ -200,6 +200,8 @@ pub enum Op {
     Reopen { alt: u8 },
     /// audit everything now
     Audit,
+    /// rotate + flush every keyspace, then the number of journal files must be back to one
+    SettleJournals,
 }
 
 #[derive(Clone, Debug, Serialize, Deserialize, PartialEq, Eq, Hash)]
